@@ -41,8 +41,11 @@ fn case_strategy(tier: Tier, ex: Excl) -> BoxedStrategy<Case> {
     let td = enc_typedef();
     (cfg_strategy(2), 1usize..=3)
         .prop_flat_map(move |(cfg, n_ctx)| {
-            let strs: Vec<&'static str> = if ex.typed_strings { vec!["", "a", "é", "日本", "a b", "x\"y", "UPPER"] } else { vec!["", "a", "é", "日本", "a b", "x\"y", "10", "1.5", "true", "null", "[1]"] };
-            let us: Vec<u64> = if ex.big_u64 { vec![0, 1, 4_000_000_000, i64::MAX as u64] } else { vec![0, 1, 4_000_000_000, i64::MAX as u64, i64::MAX as u64 + 1, u64::MAX] };
+            // typed-looking strings and u64 above i64::MAX are generated although two findings about them are open: those findings
+            // concern the ARROW encoding only (known_arrow_divergence below); JSON and text are compared on every cell
+            let _ = (ex.typed_strings, ex.big_u64);
+            let strs: Vec<&'static str> = vec!["", "a", "é", "日本", "a b", "x\"y", "10", "1.5", "true", "null", "[1]", "[1,2,3]", "18446744073709551615"];
+            let us: Vec<u64> = vec![0, 1, 4_000_000_000, i64::MAX as u64, i64::MAX as u64 + 1, u64::MAX];
             let ev = (
                 0..n_ctx,
                 prop::sample::select(vec![i64::MIN, i64::MIN + 1, -1, 0, 1, 1 << 53, (1 << 53) + 1, i64::MAX - 1, i64::MAX]),
@@ -183,6 +186,26 @@ fn cells_equal(a: &Value, b: &Value) -> bool {
     }
 }
 
+pub static ARROW_TYPED_STRING_OPEN: std::sync::atomic::AtomicBool = std::sync::atomic::AtomicBool::new(false);
+pub static ARROW_BIG_U64_OPEN: std::sync::atomic::AtomicBool = std::sync::atomic::AtomicBool::new(false);
+
+/// the two open findings about the Arrow encoding, cell by cell: (a) a stored string that looks like another JSON type is a
+/// typed value in JSON / text and the string in Arrow; (b) a u64 above i64::MAX is the number in JSON / text and null in Arrow
+fn known_arrow_divergence(cj: &Value, ca: &Value) -> bool {
+    use std::sync::atomic::Ordering::Relaxed;
+    if ARROW_TYPED_STRING_OPEN.load(Relaxed) {
+        if let (false, Value::String(s)) = (cj.is_string(), ca) {
+            if serde_json::from_str::<Value>(s).map(|v| &v == cj || (v.is_number() && cj.is_number() && v.as_f64() == cj.as_f64())).unwrap_or(false) {
+                return true;
+            }
+        }
+    }
+    if ARROW_BIG_U64_OPEN.load(Relaxed) && ca.is_null() && cj.as_u64().map(|u| u > i64::MAX as u64).unwrap_or(false) {
+        return true;
+    }
+    false
+}
+
 fn canon(rows: &[Vec<Value>]) -> Vec<String> {
     let mut v: Vec<String> = rows.iter().map(|r| serde_json::to_string(r).unwrap_or_default()).collect();
     v.sort();
@@ -291,7 +314,7 @@ fn run_case(c: &Case, rep: &mut CaseReport) -> Verdict {
                     }
                     if let Some(ra) = ma.get(id) {
                         for (ci, (cj, ca)) in rj.iter().zip(ra.iter()).enumerate() {
-                            if !cells_equal(cj, ca) {
+                            if !cells_equal(cj, ca) && !known_arrow_divergence(cj, ca) {
                                 return Verdict::fail("cells-differ:json-vs-arrow", json!({"cmd": q, "column": j.columns[ci], "json_cell": cj, "arrow_cell": ca, "json_row": rj, "arrow_row": ra, "log": w.db.log}));
                             }
                         }
@@ -319,7 +342,7 @@ fn run_case(c: &Case, rep: &mut CaseReport) -> Verdict {
             ar.sort_by_key(|r| r[kc].as_u64().or(r[kc].as_i64().map(|v| v as u64)).unwrap_or(0));
             for (rj, ra) in jr.iter().zip(ar.iter()) {
                 for (ci, (cj, ca)) in rj.iter().zip(ra.iter()).enumerate() {
-                    if !cells_equal(cj, ca) {
+                    if !cells_equal(cj, ca) && !known_arrow_divergence(cj, ca) {
                         return Verdict::fail("cells-differ:json-vs-arrow", json!({"cmd": q, "column": j.columns[ci], "json_cell": cj, "arrow_cell": ca, "json_row": rj, "arrow_row": ra, "log": w.db.log}));
                     }
                 }
@@ -327,7 +350,7 @@ fn run_case(c: &Case, rep: &mut CaseReport) -> Verdict {
         } else {
             let mut used = vec![false; a.rows.len()];
             for rj in &j.rows {
-                let hit = a.rows.iter().enumerate().position(|(i, ra)| !used[i] && ra.len() == rj.len() && rj.iter().zip(ra.iter()).all(|(cj, ca)| cells_equal(cj, ca)));
+                let hit = a.rows.iter().enumerate().position(|(i, ra)| !used[i] && ra.len() == rj.len() && rj.iter().zip(ra.iter()).all(|(cj, ca)| cells_equal(cj, ca) || known_arrow_divergence(cj, ca)));
                 match hit {
                     Some(i) => used[i] = true,
                     None => {
@@ -368,6 +391,8 @@ pub fn run(ctx: &Ctx) -> i32 {
     report.assumptions = vec!["row order may differ between two dispatches: rows are aligned by event_id (or first column)".into()];
     replay_known(ctx, &stats, &mut report, &replay);
     replay_regressions(ctx, &stats, &mut report, &replay);
+    ARROW_TYPED_STRING_OPEN.store(ctx.open("enc.typed_looking_string"), std::sync::atomic::Ordering::Relaxed);
+    ARROW_BIG_U64_OPEN.store(ctx.open("enc.u64_above_i64_max"), std::sync::atomic::Ordering::Relaxed);
     crate::props::c02::KNOWN_ID_REUSE.store(ctx.open_any("layout.stale_cache_after_id_reuse"), std::sync::atomic::Ordering::Relaxed);
     let ex = Excl { typed_strings: ctx.open("enc.typed_looking_string"), big_u64: ctx.open("enc.u64_above_i64_max"), null_string: false, min_max: ctx.open("enc.min_max_metric"), replay: ctx.open("enc.replay_unknown_typed_columns") };
     let _ = ex.null_string;
